@@ -229,7 +229,6 @@ package geometry
 //@ spec func le32(d []byte, o int) int { d[o] + 256*d[o+1] + 65536*d[o+2] + 16777216*d[o+3] }
 // well-formedness of the compressed indexes (defined further below)
 //@ spec func RWFtop(d []byte, pts []Point, closed bool) bool
-//@ spec func QWFtop(d []byte, pts []Point, closed bool, bounds Rect) bool
 //@ spec func indexBytesOK(s *baseSeries, d []byte) bool {
 //@     len(d) >= 5 && 5 <= le32(d,1) && le32(d,1) <= len(d) && (d[0] == 1 || d[0] == 2) &&
 //@     (d[0] == 1 ==> RWFtop(slice(d, 0, le32(d,1)), s.points, s.closed)) && (d[0] == 2 ==> QWFtop(slice(d, 0, le32(d,1)), s.points, s.closed, s.rect)) }
@@ -240,14 +239,6 @@ package geometry
 //@   arith order
 //@   trusted search side of the compressed R-tree not yet under contract
 //@   requires series != nil && addr == 5 && RWFtop(data, series.points, series.closed)
-//@   iter iter(item) dom 0 <= item && item < bsNseg(series) ; match rectsMeet(segRect(bsSeg(series, item)), rect) ; args bsSeg(series, item), item
-//@   ensures result == !stopped
-
-//@ func qCompressSearch
-//@   props C04
-//@   arith order
-//@   trusted search side of the compressed quadtree not yet under contract
-//@   requires series != nil && addr == 5 && bounds == series.rect && QWFtop(data, series.points, series.closed, series.rect)
 //@   iter iter(item) dom 0 <= item && item < bsNseg(series) ; match rectsMeet(segRect(bsSeg(series, item)), rect) ; args bsSeg(series, item), item
 //@   ensures result == !stopped
 
@@ -797,3 +788,173 @@ package geometry
 //@   arith order
 //@   requires len(data) >= widthOf(ibytes)
 //@   ensures result == numAt(data, 0, ibytes)
+
+// ---------------------------------------------------------------- C04: quadrant geometry (order mode: the midpoint is an uninterpreted function of the bounds)
+
+//@ spec func midX(b Rect) real { fdiv(fadd(b.Min.X, b.Max.X), 2) }
+//@ spec func midY(b Rect) real { fdiv(fadd(b.Min.Y, b.Max.Y), 2) }
+//@ spec func quadOf(b Rect, q int) Rect {
+//@     ite(q == 0, mkRect(mkPoint(b.Min.X, midY(b)), mkPoint(midX(b), b.Max.Y)),
+//@     ite(q == 1, mkRect(mkPoint(midX(b), midY(b)), mkPoint(b.Max.X, b.Max.Y)),
+//@     ite(q == 2, mkRect(mkPoint(b.Min.X, b.Min.Y), mkPoint(midX(b), midY(b))),
+//@     ite(q == 3, mkRect(mkPoint(midX(b), b.Min.Y), mkPoint(b.Max.X, midY(b))),
+//@                 mkRect(mkPoint(0,0), mkPoint(0,0)))))) }
+//@ spec func rectInside(a Rect, b Rect) bool { b.Min.X <= a.Min.X && a.Max.X <= b.Max.X && b.Min.Y <= a.Min.Y && a.Max.Y <= b.Max.Y }
+//@ spec func rectOK(a Rect) bool { a.Min.X <= a.Max.X && a.Min.Y <= a.Max.Y }
+
+//@ func quadBounds
+//@   props C04
+//@   arith order
+//@   ensures qbounds == quadOf(bounds, q)
+
+// an item that chooseQuad sends to quadrant q lies inside that quadrant's bounds (whatever the midpoint evaluates to)
+//@ func qNode.chooseQuad
+//@   props C04
+//@   arith order
+//@   requires rectOK(rect) && rectInside(rect, bounds)
+//@   ensures Range: result == -1 || (0 <= result && result <= 3)
+//@   ensures Inside: result >= 0 ==> rectInside(rect, quadOf(bounds, result))
+
+// a rectangle inside b cannot meet what b does not meet (soundness of pruning a subtree by its bounds)
+//@ lemma insideNoMeet(a Rect, b Rect, r Rect)
+//@   props C04
+//@   requires rectInside(a, b) && !rectsMeet(b, r)
+//@   ensures !rectsMeet(a, r)
+
+// ---------------------------------------------------------------- C04: compressed quadtree, search side
+// node layout at address a:  w | count (w bytes) | count items (w bytes each) | split flag | 4 x (used flag [+ 4-byte child address])
+
+//@ spec func qW(d []byte, a int) int { d[a] }
+//@ spec func qN(d []byte, a int) int { numAt(d, a+1, qW(d,a)) }
+//@ spec func qItem(d []byte, a int, k int) int { numAt(d, a+1+qW(d,a)+k*qW(d,a), qW(d,a)) }
+//@ spec func qS(d []byte, a int) int { a+1+qW(d,a)+qN(d,a)*qW(d,a) }
+//@ spec func qE(d []byte, s int, q int) int rec { ite(q <= 0, s+1, qE(d,s,q-1) + ite(d[qE(d,s,q-1)] == 1, 5, 1)) }
+//@ spec func qUsed(d []byte, s int, q int) bool { d[qE(d,s,q)] == 1 }
+//@ spec func qChild(d []byte, s int, q int) int { le32(d, qE(d,s,q)+1) }
+//@ spec func inList(d []byte, a int, k int, i int) bool rec { k > 0 && (inList(d,a,k-1,i) || qItem(d,a,k-1) == i) }
+//@ spec func qInKid(d []byte, a int, q int, i int) bool { d[qS(d,a)] == 1 && qUsed(d,qS(d,a),q) && qIn(d, qChild(d,qS(d,a),q), i) }
+//@ spec func qIn(d []byte, a int, i int) bool rec { inList(d,a,qN(d,a),i) || qInKid(d,a,0,i) || qInKid(d,a,1,i) || qInKid(d,a,2,i) || qInKid(d,a,3,i) }
+//@ spec func segRectOf(ps []Point, i int) Rect { segRect(segOf(ps,i)) }
+
+//@ spec func qNoDup(d []byte, a int) bool { forall k1 int, k2 int :: 0 <= k1 && k1 < k2 && k2 < qN(d,a) ==> qItem(d,a,k1) != qItem(d,a,k2) }
+//@ spec func qNodeOK(d []byte, a int, ps []Point, cl bool) bool {
+//@     0 <= a && a+1 < len(d) && (qW(d,a) == 1 || qW(d,a) == 2 || qW(d,a) == 4) && a+1+qW(d,a) <= len(d) && 0 <= qN(d,a) && qS(d,a) < len(d) &&
+//@     (forall k int :: 0 <= k && k < qN(d,a) ==> 0 <= qItem(d,a,k) && qItem(d,a,k) < nsegOf(ps,cl)) &&
+//@     qNoDup(d,a) && (d[qS(d,a)] == 0 || d[qS(d,a)] == 1) }
+//@ spec func qKidOK(d []byte, a int, b Rect, ps []Point, cl bool, q int) bool {
+//@     qS(d,a) < qE(d,qS(d,a),q) && qE(d,qS(d,a),q) < len(d) && (d[qE(d,qS(d,a),q)] == 0 || d[qE(d,qS(d,a),q)] == 1) &&
+//@     (qUsed(d,qS(d,a),q) ==> (qE(d,qS(d,a),q)+5 <= len(d) && a < qChild(d,qS(d,a),q) && qChild(d,qS(d,a),q) < len(d) &&
+//@                              QWF(d, qChild(d,qS(d,a),q), quadOf(b,q), ps, cl))) }
+//@ spec func qKidInside(d []byte, a int, b Rect, ps []Point, q int) bool { forall i int :: qInKid(d,a,q,i) ==> rectInside(segRectOf(ps,i), quadOf(b,q)) }
+//@ spec func qDisjoint(d []byte, a int) bool {
+//@     (forall i int :: inList(d,a,qN(d,a),i) ==> (!qInKid(d,a,0,i) && !qInKid(d,a,1,i) && !qInKid(d,a,2,i) && !qInKid(d,a,3,i))) &&
+//@     (forall i int, q1 int, q2 int :: 0 <= q1 && q1 < q2 && q2 <= 3 ==> !(qInKid(d,a,q1,i) && qInKid(d,a,q2,i))) }
+// well-formedness of the subtree at address a whose items all lie inside the rectangle b (hidden: unfolded only by the lemmas below)
+//@ spec func QWF(d []byte, a int, b Rect, ps []Point, cl bool) bool rec hidden {
+//@     qNodeOK(d,a,ps,cl) &&
+//@     (d[qS(d,a)] == 1 ==> (qKidOK(d,a,b,ps,cl,0) && qKidOK(d,a,b,ps,cl,1) && qKidOK(d,a,b,ps,cl,2) && qKidOK(d,a,b,ps,cl,3) &&
+//@                           qKidInside(d,a,b,ps,0) && qKidInside(d,a,b,ps,1) && qKidInside(d,a,b,ps,2) && qKidInside(d,a,b,ps,3))) &&
+//@     qDisjoint(d,a) }
+// the whole index: well-formed from the root at offset 5 with the series rectangle as bounds, and it holds every segment
+//@ spec func QWFtop(d []byte, ps []Point, cl bool, bounds Rect) bool {
+//@     QWF(d, 5, bounds, ps, cl) && (forall i int :: (0 <= i && i < nsegOf(ps,cl)) == qIn(d, 5, i)) }
+
+//@ lemma qwfNode(d []byte, a int, b Rect, ps []Point, cl bool)
+//@   props C04
+//@   reveal QWF
+//@   requires QWF(d,a,b,ps,cl)
+//@   ensures qNodeOK(d,a,ps,cl) && qDisjoint(d,a)
+//@ lemma qwfKid(d []byte, a int, b Rect, ps []Point, cl bool, q int)
+//@   props C04
+//@   reveal QWF
+//@   requires QWF(d,a,b,ps,cl) && d[qS(d,a)] == 1 && 0 <= q && q <= 3
+//@   ensures qKidOK(d,a,b,ps,cl,q) && qKidInside(d,a,b,ps,q)
+
+// what the children q' < q that are searched (their quadrant meets the query) contribute
+//@ spec func kidsUpTo(d []byte, a int, b Rect, r Rect, q int, i int) bool rec {
+//@     q > 0 && (kidsUpTo(d,a,b,r,q-1,i) || (qInKid(d,a,q-1,i) && rectsMeet(quadOf(b,q-1), r))) }
+
+//@ lemma inListWitness(d []byte, a int, k int, k0 int)
+//@   props C04
+//@   requires 0 <= k0 && k0 < k
+//@   ensures inList(d, a, k, qItem(d,a,k0))
+//@   induction k
+//@ lemma notInPrefix(d []byte, a int, k int, k2 int)
+//@   props C04
+//@   requires qNoDup(d,a) && 0 <= k && k <= k2 && k2 < qN(d,a)
+//@   ensures !inList(d, a, k, qItem(d,a,k2))
+//@   induction k
+//@ lemma inListMono(d []byte, a int, k1 int, k2 int, j int)
+//@   props C04
+//@   requires k1 <= k2 && inList(d,a,k1,j)
+//@   ensures inList(d,a,k2,j)
+//@   induction k2
+// a reported child item belongs to the node's item set
+//@ lemma kidsUpToIn(d []byte, a int, b Rect, r Rect, q int, j int)
+//@   props C04
+//@   requires q <= 4 && kidsUpTo(d,a,b,r,q,j)
+//@   ensures qInKid(d,a,0,j) || qInKid(d,a,1,j) || qInKid(d,a,2,j) || qInKid(d,a,3,j)
+//@   induction q
+// an item of child q2 has not been reported while only children below q <= q2 were searched
+//@ lemma kidsUpToNotIn(d []byte, a int, b Rect, r Rect, q int, q2 int, j int)
+//@   props C04
+//@   requires qDisjoint(d,a) && 0 <= q && q <= q2 && q2 <= 3 && qInKid(d,a,q2,j)
+//@   ensures !kidsUpTo(d,a,b,r,q,j)
+//@   induction q
+// every item of a searched child q1 < q is in the reported set
+//@ lemma kidInUpTo(d []byte, a int, b Rect, r Rect, q int, q1 int, j int)
+//@   props C04
+//@   requires 0 <= q1 && q1 < q && q <= 4 && qInKid(d,a,q1,j) && rectsMeet(quadOf(b,q1), r)
+//@   ensures kidsUpTo(d,a,b,r,q,j)
+//@   induction q
+
+// an item of child q (0..3) is an item of the node, and is not in the node's own list
+//@ lemma kidIn(d []byte, a int, q int, j int)
+//@   props C04
+//@   requires 0 <= q && q <= 3 && qInKid(d,a,q,j)
+//@   ensures qIn(d,a,j)
+//@ lemma listKidDisjoint(d []byte, a int, q int, j int)
+//@   props C04
+//@   requires qDisjoint(d,a) && 0 <= q && q <= 3 && qInKid(d,a,q,j)
+//@   ensures !inList(d,a,qN(d,a),j)
+
+//@ func qCompressSearch
+//@   props C04
+//@   arith order
+//@   requires series != nil && QWF(data, addr, bounds, series.points, series.closed)
+//@   iter iter(item) dom qIn(data, addr, item) ; match rectsMeet(segRectOf(series.points, item), rect) ; args bsSeg(series, item), item
+//@   ensures result == !stopped
+//@   decreases len(data) - addr
+//@   entry use qwfNode(data, addr, bounds, series.points, series.closed)
+//@   loop 0 invariant Pos: 0 <= i && i <= nItems && nItems == qN(data, old(addr)) && ibytes == qW(data, old(addr)) && addr == old(addr)+1+ibytes+i*ibytes && !stopped
+//@   loop 0 invariant Seen: forall j int :: seen[j] == (old(seen)[j] || (inList(data, old(addr), i, j) && rectsMeet(segRectOf(series.points, j), rect)))
+//@   loop 0 decreases nItems - i
+//@   loop 0 begin use inListWitness(data, old(addr), nItems, i)
+//@   loop 0 begin use notInPrefix(data, old(addr), i, i)
+//@   loop 1 invariant Pos: 0 <= q && q <= 4 && addr == qE(data, qS(data, old(addr)), q) && data[qS(data, old(addr))] == 1 && !stopped
+//@   loop 1 invariant Seen: forall j int :: seen[j] == (old(seen)[j] || ((inList(data, old(addr), qN(data, old(addr)), j) || kidsUpTo(data, old(addr), bounds, rect, q, j)) && rectsMeet(segRectOf(series.points, j), rect)))
+//@   loop 1 decreases 4 - q
+//@   loop 1 begin use qwfKid(data, old(addr), bounds, series.points, series.closed, q)
+//@   proto ret0 use inListMono(data, addr, i, qN(data, addr), $j)
+//@   proto ret1 use kidsUpToIn(data, addr, bounds, rect, q, $j)
+//@   proto call8 use kidsUpToNotIn(data, addr, bounds, rect, q, q, $j)
+//@   proto call8 use kidIn(data, addr, q, $j)
+//@   proto call8 use listKidDisjoint(data, addr, q, $j)
+//@   proto ret1 use kidIn(data, addr, q, $j)
+//@   proto ret1 use kidIn(data, addr, 0, $j)
+//@   proto ret1 use kidIn(data, addr, 1, $j)
+//@   proto ret1 use kidIn(data, addr, 2, $j)
+//@   proto ret1 use kidIn(data, addr, 3, $j)
+//@   proto ret2 use kidsUpToIn(data, addr, bounds, rect, 4, $j)
+//@   proto ret2 use qwfKid(data, addr, bounds, series.points, series.closed, 0)
+//@   proto ret2 use qwfKid(data, addr, bounds, series.points, series.closed, 1)
+//@   proto ret2 use qwfKid(data, addr, bounds, series.points, series.closed, 2)
+//@   proto ret2 use qwfKid(data, addr, bounds, series.points, series.closed, 3)
+//@   proto ret2 use kidInUpTo(data, addr, bounds, rect, 4, 0, $j)
+//@   proto ret2 use kidInUpTo(data, addr, bounds, rect, 4, 1, $j)
+//@   proto ret2 use kidInUpTo(data, addr, bounds, rect, 4, 2, $j)
+//@   proto ret2 use kidInUpTo(data, addr, bounds, rect, 4, 3, $j)
+//@   proto ret2 use insideNoMeet(segRectOf(series.points, $j), quadOf(bounds, 0), rect)
+//@   proto ret2 use insideNoMeet(segRectOf(series.points, $j), quadOf(bounds, 1), rect)
+//@   proto ret2 use insideNoMeet(segRectOf(series.points, $j), quadOf(bounds, 2), rect)
+//@   proto ret2 use insideNoMeet(segRectOf(series.points, $j), quadOf(bounds, 3), rect)
